@@ -257,7 +257,11 @@ class C05(PropCheck):
             pool = None
         # refusal of another batch_size / seed
         if pool is not None:
-            for kw, what in ((dict(batch_size=b + 1, seed=seed), 'batch_size'), (dict(batch_size=b, seed=seed + 1), 'seed')):
+            offers = [(dict(batch_size=b + 1, seed=seed), 'batch_size'), (dict(batch_size=b, seed=seed + 1), 'seed'),
+                      (dict(batch_size=b + 1), 'batch_size (seed not given)'), (dict(seed=seed + 7), 'seed (batch_size not given)')]
+            if seed != 0:
+                offers.append((dict(batch_size=b, seed=0), 'seed (0 offered)'))
+            for kw, what in offers:
                 try:
                     ComputationContext(pool=pool, **kw)
                     problems.append('a pool created with another %s was accepted' % what)
